@@ -201,3 +201,31 @@ def c20_layout_payload(ctx, dim, shape, trailing):
     if dim == 2:
         back = ix.cartesianToMatrixIndexing(got)
         ctx.ensure("cartesianToMatrixIndexing inverts it (2-D) with payload axes", back.shape == arr.shape and all((p is q) if ctx.sym else (p == q) for p, q in zip(back.flat, arr.flat)))
+
+
+@ob("C20.slice_boundary", cases=[dict(dim=2, shape=(3, 4)), dict(dim=2, shape=(1, 2)), dict(dim=3, shape=(2, 3, 2))], mods=MODS, funcs=FUNCS, samples=(1, 2),
+    cite="agree ... with the coordinate system about which axis corresponds to which and whether it is reversed ... Addressing an axis of an image by its Cartesian name or by its "
+         "matrix index (in slicing ...) selects the same data",
+    note="cut coordinates lying EXACTLY on a voxel face (exactly representable geometry) and a quarter voxel off it: slicing by Cartesian name selects the layer the coordinate system "
+         "assigns to that coordinate (after seed C20_h: an own floor / mirror rule that differs from the coordinate system's on faces of reversed axes)")
+def c20_slice_boundary(ctx, dim, shape):
+    h = [0.5, 0.25, 1.0][:dim]
+    dims = [shape[k] * h[k] for k in range(dim)]
+    org = [1.5, -2.25, 0.75][:dim]
+    arr = ctx.array("a", shape)
+    img = darsia.Image(arr, space_dim=dim, scalar=True, dimensions=list(dims), origin=list(org))
+    cs = img.coordinatesystem
+    cart, mat = "xyz"[:dim], "ijk"[:dim]
+    same = lambda x, y: x.shape == y.shape and (all(p is q for p, q in zip(x.flat, y.flat)) if ctx.sym else bool(np.all(x == y)))
+    for a_i, a in enumerate(cart):
+        m_i, rev = ix.interpret_indexing(a, mat)
+        for pos in [c + off for c in range(shape[m_i] + 1) for off in (0.0, 0.25, 0.75)]:
+            pt = [0.5] * dim
+            pt[m_i] = pos
+            coord = cs.coordinate(np.array(pt))
+            idx = int(np.asarray(cs.voxel(coord))[m_i])
+            if not 0 <= idx < shape[m_i]:
+                continue
+            by_name = img.slice(float(coord[a_i]), a)
+            ctx.ensure(f"slice({float(coord[a_i])!r}, {a!r}) is layer {idx} of matrix axis {m_i} - the voxel the coordinate system assigns to the cut",
+                       same(by_name.img, np.take(arr, idx, axis=m_i)))
